@@ -5,6 +5,7 @@ serialisations of the live simulation captured by the I/O seam at the instant th
 opens the archive for writing (same thread, inside the library's own call stack), so it is exact
 for manual *and* automatic snapshots.  The oracle runs on fresh objects built from the file only.
 """
+import math
 import os
 import struct
 
@@ -25,7 +26,7 @@ COMPONENTS = {"real": ["binary diff encoder (binarydiff.c)", "archive writer/rea
               "simulated": ["snapshot-instant observer (fopen seam)", "wall clock incl. jumps", "heap placement (hostile allocator: garbage fill, always-move realloc, poison)"]}
 ASSUMPTIONS = ["the serialiser is idempotent (calling it from the fopen observer right before the library calls it does not change what the library writes)",
                "callbacks are re-attached to every loaded snapshot before it is compared (field 87 records only whether any callback is set)"]
-PROBES = ["vanished_field_history", "grew_past_128", "N_dropped_to_zero", "reopened", "auto_step_snapshots", "auto_interval_snapshots", "merge_changed_N", "op_raised", "returned_to_first_snapshot_time", "switched_to_new_archive_file", "archive_with_more_than_1024_snapshots", "archive_with_more_than_2048_snapshots"]
+PROBES = ["reopened_last_step_dt", "vanished_field_history", "grew_past_128", "N_dropped_to_zero", "reopened", "auto_step_snapshots", "auto_interval_snapshots", "merge_changed_N", "op_raised", "returned_to_first_snapshot_time", "switched_to_new_archive_file", "archive_with_more_than_1024_snapshots", "archive_with_more_than_2048_snapshots"]
 
 INTEGS = ["ias15", "whfast", "saba", "eos", "leapfrog", "janus", "mercurius", "trace", "bs", "sei", "none"]
 SETS = [("softening", [0.0, 1e-3]), ("exit_max_distance", [0.0, 500.0]), ("ri_ias15.epsilon", [1e-9, 1e-7]), ("ri_ias15.adaptive_mode", [0, 1, 2, 3]),
@@ -267,6 +268,12 @@ def execute(case, ctx):
                     elif k == "reopen":
                         if model:
                             new = rebound.Simulation(cur["path"])
+                            if new.dt != 0 and abs(new.dt) < 1e-6 * abs(cfg["dt"]):
+                                # the last snapshot was written inside the shortened final step of an exact-finish call and carries that remainder
+                                # (possibly one ulp of t) as dt - known finding C07 restart:dt / C05 LAST_STEP; continuing with it costs 1e7 steps per
+                                # op (20 s wall-cap timeouts, nothing for C06 to see), so the careful user sets the step size again after reopening
+                                new.dt = math.copysign(abs(cfg["dt"]), new.dt)
+                                probe("reopened_last_step_dt")
                             simgen.attach_callbacks(rebound, rb, new, cfg)
                             rb.hb_attach(new)
                             box["sim"] = new
